@@ -34,9 +34,9 @@ def random_ast(rnd, names, size):
         return ("plus", random_ast(rnd, names, size - 1))
     if r < 0.9:
         return ("opt", random_ast(rnd, names, size - 1))
-    lo = rnd.randint(0, 2)
+    lo = rnd.randint(0, 3)
     kind = rnd.random()
-    hi = lo if kind < 0.4 else (-1 if kind < 0.6 else lo + rnd.randint(0, 2))
+    hi = lo if kind < 0.35 else (-1 if kind < 0.55 else lo + rnd.randint(1, 3))
     return ("range", lo, hi, random_ast(rnd, names, size - 1))
 
 
@@ -95,7 +95,7 @@ def all_asts(names, size):
                 yield ("choice", [a, b])
 
 
-RANGES = [(0, 0), (1, 1), (2, 2), (0, -1), (1, -1), (2, -1), (0, 1), (0, 2), (1, 2), (1, 3)]
+RANGES = [(0, 0), (1, 1), (2, 2), (0, -1), (1, -1), (2, -1), (0, 1), (0, 2), (1, 2), (1, 3), (0, 3), (3, 3)]
 
 
 # ------------------------------------------------------------------ documents
